@@ -15,6 +15,7 @@ import (
 	"github.com/emitter-io/emitter/internal/message"
 	"github.com/emitter-io/emitter/internal/security/hash"
 	"github.com/emitter-io/emitter/verif/core"
+	"github.com/emitter-io/emitter/verif/drivers/session"
 	"github.com/emitter-io/emitter/verif/tlc"
 )
 
@@ -410,6 +411,14 @@ func Run(c *core.Ctx) {
 		}
 		concurrent(c, mode, rounds)
 	}
+	// the request path in front of the index (SUBSCRIBE / UNSUBSCRIBE / PUBLISH through a real broker: per-connection
+	// counters decide whether the index is touched at all), sequentially and with overlapping requests
+	num := 40
+	if !c.Quick() {
+		num = 400
+	}
+	session.SequentialStage(c, "through a real broker, clients did not receive exactly what the subscriptions in force entitle them to", "pubsub", num, 16)
+	session.HammerStage(c, "through a real broker, the index after overlapping requests is not the set of acknowledged subscriptions", 4, 100, 1)
 	c.Set("distinct_nontrivial", nontrivial)
 	c.Set("rule", "a replayed walk of the exported TLC state graph is non-trivial when, somewhere in it, one lookup returned a non-empty and another an empty subscriber set; walks are distinct by construction (each covers edges no earlier walk covered)")
 	c.Set("exhaustive", true)
